@@ -45,7 +45,11 @@ ASSUMPTIONS = [
     "such functions and what calls them outside a bracket are only attacked dynamically.",
     "Dynamic part: faults are exceptions raised from user callbacks / _mpmath_ hooks and from wrapped libmp primitives "
     "(mpf_*, mpc_*, from_*, to_*); asynchronous exceptions (KeyboardInterrupt, MemoryError) are not injected. A timeout is 'no result'.",
-    "iv and fp contexts: the iv context's setters are extracted and listed (not bracketed by design); no dynamic specs for iv/fp.",
+    "iv and fp contexts: the iv context's setters are extracted and listed (not bracketed by design); dynamic specs for calls made "
+    "in fp / iv / a clone record mp's (prec, dps) (and iv's for the iv specs): every function with a precision effect that "
+    "dereferences ctx._mp/_fp/_iv (ast scan) must be executed by one of them (measured), else a broken obligation.",
+    "A save/restore pair counts as a bracket only if both name the same object expression (`v = X.prec ... X.prec = v`); "
+    "`v = ctx.prec ... ctx._mp.prec = v` is a write from an untracked source.",
 ]
 TRUSTED_EXTRA = ["tools/skel_extract.py (Python ast -> skeleton translator; its Python copy of `bracketed` is re-decided by Lean on "
                  "every generated skeleton)"]
@@ -93,8 +97,11 @@ FAULT = {"a": "none", "b": "callback", "c": "libmp"}
 def _failing(leak, site, what_extra=""):
     fault = FAULT[leak["mode"]]
     exc = {"X": "Injected(Exception)", "Z": "ZeroDivisionError", "V": "ValueError", "N": "NoConvergence"}.get(leak.get("exc"), None)
-    what = ("%s: (prec, dps) %s -> %s after %s" % (
-        leak["name"], tuple(leak["before"]), tuple(leak["after"]),
+    cross = prec_dynamic.is_cross(leak["name"])
+    what = ("%s: %s %s -> %s after %s" % (
+        leak["name"], ("(mp.prec, mp.dps, iv.prec, iv.dps)" if len(leak["before"]) == 4 else
+                       "(prec, dps) of the GLOBAL mp, call made in/through another context:" if cross else "(prec, dps)"),
+        tuple(leak["before"]), tuple(leak["after"]),
         "normal call (outcome %s)" % leak["outcome"] if fault == "none" else
         "%s raised at call %d of %s (%s)" % (exc, leak["k"], "the user callback/conversion hook" if fault == "callback"
                                                  else "the wrapped libmp primitives", leak["outcome"])))
@@ -246,20 +253,28 @@ def run(ctx):
 
     # ---- (c) always: dynamic confirmation ---------------------------------------------------------------------------
     leaky_names = set(e.split(":")[1].split(".")[-1] for e in summ["leaky_public_entries"])
-    flagged = [s for s in all_specs if prec_dynamic.spec_entry(s) in leaky_names or s in SITE_OVERRIDE or s.endswith('_closure')]
+    # the cross-context specs (calls made in fp / iv / a clone, or going through another context) are the only ones of their
+    # class: always run
+    flagged = [s for s in all_specs if prec_dynamic.spec_entry(s) in leaky_names or s in SITE_OVERRIDE or s.endswith('_closure')
+               or prec_dynamic.is_cross(s)]
     if ctx.quick:
         rest = [s for s in all_specs if s not in flagged and s not in searched_hard]
         rng.shuffle(rest)
         chosen = [s for s in flagged if s not in searched_hard] + rest[:24]
         precs = {}
         for s in chosen:
-            if s in flagged:
+            if prec_dynamic.is_cross(s):
+                precs[s] = [rng.choice([100, 101, 167])]
+            elif s in flagged:
                 precs[s] = [53, 101, rng.choice([100, 167, 1000])]
             else:
                 precs[s] = [rng.choice([53, 100]), rng.choice([101, 167]), 1000] if rng.random() < 0.25 else \
                            [rng.choice([53, 100]), rng.choice([101, 167])]
         deadline = t0 + (95 if not res["broken"] else 400)
-        results += prec_dynamic.search(chosen, precs, sites, timeout=8.0, jobs=jobs, modes=("b", "c"), excs=("X",), deadline=deadline)
+        cross = [s for s in chosen if prec_dynamic.is_cross(s)]       # the only specs of their class: not subject to the time budget
+        results += prec_dynamic.search(cross, precs, sites, timeout=8.0, jobs=jobs, modes=("b", "c"), excs=("X",))
+        results += prec_dynamic.search([s for s in chosen if s not in cross], precs, sites, timeout=8.0, jobs=jobs,
+                                       modes=("b", "c"), excs=("X",), deadline=deadline)
     else:
         chosen = [s for s in all_specs if s not in searched_hard]
         results += prec_dynamic.search(chosen, PRECS, sites, timeout=25.0, jobs=jobs, modes=("b", "c"), excs=("X",))
@@ -271,6 +286,23 @@ def run(ctx):
                                                modes=("b", "c"), excs=(fi.get("exc") or "X",))
         except Exception:
             pass
+
+    # ---- cross-links: a function that writes a precision AND reaches for another context must be executed cross-context ----
+    import ctx_ops
+    link_fns = {}
+    for rel, fname_, line, link in ctx_ops.link_sites():
+        for k, v in fn.items():
+            if v.get("file") == rel and k.split(":")[1].split(".")[-1] == fname_ and v.get("kind") == "writer":
+                link_fns.setdefault(k, set()).add(link)
+    cross_cover = {k: sorted(r["name"] for r in results if prec_dynamic.is_cross(r["name"]) and k in r["cover"]) for k in link_fns}
+    cover_unknown = sorted(r["name"] for r in results if prec_dynamic.is_cross(r["name"]) and
+                           (r.get("skipped") or not str(r.get("normal_outcome", "")).startswith(("ok", "exc", "injected"))))
+    res["coverage"]["cross_specs_cover_run_without_result"] = cover_unknown
+    for k, by in sorted(cross_cover.items()):
+        if not by and not cover_unknown:
+            res["broken"].append(("cross-context spec for %s" % k, "%s writes a precision and dereferences ctx.%s, and no cross-context "
+                                  "spec of harness/prec_dynamic.py (fp_*/iv_*/clone_*) executes it" % (k, "/".join(sorted(link_fns[k])))))
+    res["coverage"]["cross_link_writers_executed_by"] = cross_cover
 
     # ---- collect ----------------------------------------------------------------------------------------------------
     seen = set()
